@@ -138,6 +138,14 @@ def special_family():
     d = base_desc(None, None, 'jjy', values=({'shared': 's0'}, {'shared': 's1', 'pth': 5}, {'own2': 'o'}))
     d['name'] = 'dtype-int-for-path'
     out.append(d)
+    # an explicit null is a value (it is not "absent"): it overrides the default, from the file and from contexts
+    d = base_desc('a', 'b', 'jjy', values=({'shared': 's0', 'own0': None}, {'shared': 's1', 'own1': None}, {'own2': 'o', 'shared': None}))
+    d['name'] = 'explicit-null-in-file'
+    out.append(d)
+    d = base_desc('a', 'b', 'jjy')
+    d['context'] = {'kind': 'dict', 'data': {'own0': None}, 'for_namespaces': {'a': {'own1': None}, 'a::b': {'shared': None}}}
+    d['name'] = 'explicit-null-in-context'
+    out.append(d)
     # two configs declaring the same task in one namespace: conflict in both orders; different namespaces: fine
     for order in (0, 1):
         for ns in (None, 'n'):
@@ -231,7 +239,10 @@ def check(desc):
                         o['POLLUTED'] = True
             if _plain(ctx_arg) != snap:
                 return [('mutating a config\'s values changes the caller\'s context', '')]
-            ch2 = w.chain('v', base_dir=root + '/data2', ctx_override=ctx_arg)
+            try:
+                ch2 = w.chain('v', base_dir=root + '/data2', ctx_override=ctx_arg)
+            except Exception as e:  # noqa
+                return [('a second chain cannot be built from the same context and files after the first chain\'s config values were modified', f'{type(e).__name__}: {str(e)[:200]}')]
             for fn, t in ch2.tasks.items():
                 got = {p: worlds.jsonable(t.params[p]) for p in m.tasks[fn].params}
                 exp = {p: refmodel.term_value(v) for p, v in m.tasks[fn].params.items()}
